@@ -39,6 +39,27 @@ theorem no_secret_in_clear (cfg : Cfg) (hreq : cfg.tls = .required) (script : Li
   have h := tls_required_no_secret_before_encrypted cfg hreq script happ _ hk
   cases k <;> simp_all [Out.clearOk, Kind.preTlsOk, Kind.carriesSecret]
 
+/-- **The scope hypothesis is tight for `sendIq`/`sendPacket`: what the application sends is written to the socket as is.**
+In ANY state: if the socket is connected and not encrypted, a request of the application goes over the wire in clear (the
+library does not hold it back until the session exists) — so the hypothesis cannot be dropped; and in every other state
+(disconnected, connecting, closing, or encrypted) nothing the call produces can reach the wire in clear: while the socket is
+not connected the stanza is only logged (or, with stream management, queued and re-sent later over the then current link,
+which the main theorem covers). -/
+theorem app_send_leaks_exactly_on_a_clear_link (s : St) :
+    (link s = .clear → Out.sent (.iqRequest false) .clear ∈ (step s .sendIq).2) ∧
+    (link s ≠ .clear → ∀ o ∈ (step s .sendIq).2, o.isClear = false) := by
+  constructor
+  · intro h
+    simp only [step, sendIq, sendStanza, send, h]
+    split <;> split <;> simp
+  · intro h
+    have hnc : NC s := by
+      intro hc
+      cases he : s.encrypted
+      · simp [link, hc, he] at h
+      · rfl
+    exact (sendIq_nc s hnc).1
+
 /-- former witness (a): the server's stream header has no `version`, then the XEP-0078 fields are offered -/
 def witnessVersionless : List Ev :=
   [.connectToServer, .socketConnected, .recv (.header false true), .recv (.iq (.authFields true true))]
